@@ -1,4 +1,503 @@
 import SqliteDissect.Model.Header
 import SqliteDissect.Spec.HeaderFmt
 namespace SqliteDissect.Proofs.Header
+open SqliteDissect SqliteDissect.Model
+
+theorem ok_bind {α β : Type} (x : α) (f : α → Py β) : ((Except.ok x : Py α) >>= f) = f x := rfl
+theorem error_bind {α β : Type} (e : PyErr) (f : α → Py β) :
+    ((Except.error e : Py α) >>= f) = Except.error e := rfl
+theorem map_ok {α β : Type} (x : α) (f : α → β) : (f <$> (Except.ok x : Py α)) = Except.ok (f x) := rfl
+theorem pure_eq {α : Type} (x : α) : (pure x : Py α) = Except.ok x := rfl
+
+/-! ### bridge lemmas `Buf.ofList` ↔ list functions -/
+
+theorem size_ofList (bs : List Nat) : (Buf.ofList bs).size = bs.length := rfl
+
+theorem rd_ofList (bs : List Nat) (i : Nat) : (Buf.ofList bs).rd i = bs.getD i 0 := rfl
+
+theorem beN_ofList (bs : List Nat) (off n : Nat) :
+    (Buf.ofList bs).beN off n = Spec.be bs off n := by
+  induction n with
+  | zero => rfl
+  | succ n ih => simp only [Buf.beN, Spec.be, ih, rd_ofList]
+
+theorem u32_ofList (bs : List Nat) (off : Nat) (h : off + 4 ≤ bs.length) :
+    (Buf.ofList bs).u32 off = .ok (Spec.be bs off 4) := by
+  simp only [Buf.u32, size_ofList, h, if_true, beN_ofList]
+
+theorem u16_ofList (bs : List Nat) (off : Nat) (h : off + 2 ≤ bs.length) :
+    (Buf.ofList bs).u16 off = .ok (Spec.be bs off 2) := by
+  simp only [Buf.u16, size_ofList, h, if_true, beN_ofList]
+
+theorem slice_toList_ofList (bs : List Nat) (lo hi : Nat) (hlo : lo ≤ hi) (hhi : hi ≤ bs.length) :
+    ((Buf.ofList bs).slice lo hi).toList = (bs.drop lo).take (hi - lo) := by
+  apply List.ext_getElem
+  · simp only [Buf.toList, Buf.slice, size_ofList, List.length_map, List.length_range,
+      List.length_take, List.length_drop]
+    omega
+  · intro i h1 h2
+    simp only [Buf.toList, Buf.slice, size_ofList, List.length_map, List.length_range] at h1
+    simp only [Buf.toList, Buf.slice, size_ofList, List.getElem_map, List.getElem_range,
+      rd_ofList, List.getElem_take, List.getElem_drop]
+    have : min lo bs.length = lo := by omega
+    rw [this]
+    have hlt : lo + i < bs.length := by omega
+    simp [List.getD_eq_getElem?_getD, hlt]
+
+/-! ### frame header -/
+
+theorem frame_ok (bs : List Nat) (hl : bs.length = 24) :
+    parseFrameHeader (Buf.ofList bs) =
+      .ok ⟨Spec.be bs 0 4, Spec.be bs 4 4, Spec.be bs 8 4, Spec.be bs 12 4, Spec.be bs 16 4,
+        Spec.be bs 20 4⟩ := by
+  unfold parseFrameHeader
+  rw [u32_ofList bs 0 (by omega), u32_ofList bs 4 (by omega), u32_ofList bs 8 (by omega),
+    u32_ofList bs 12 (by omega), u32_ofList bs 16 (by omega), u32_ofList bs 20 (by omega)]
+  simp [size_ofList, hl]
+  rfl
+
+theorem frame_len (bs : List Nat) (h : FrameHeader)
+    (hp : parseFrameHeader (Buf.ofList bs) = .ok h) : bs.length = 24 := by
+  by_cases hl : bs.length = 24
+  · exact hl
+  · unfold parseFrameHeader at hp
+    simp [size_ofList, hl] at hp
+
+theorem frame_fields_at_offsets (bs : List Nat) (h : FrameHeader)
+    (hp : parseFrameHeader (Buf.ofList bs) = .ok h) :
+    bs.length = 24 ∧ h.pageNumber = Spec.be bs 0 4 ∧ h.sizeAfterCommit = Spec.be bs 4 4 ∧
+    h.salt1 = Spec.be bs 8 4 ∧ h.salt2 = Spec.be bs 12 4 ∧ h.checksum1 = Spec.be bs 16 4 ∧
+    h.checksum2 = Spec.be bs 20 4 := by
+  have hl := frame_len bs h hp
+  rw [frame_ok bs hl] at hp
+  cases hp
+  exact ⟨hl, rfl, rfl, rfl, rfl, rfl, rfl⟩
+
+theorem frame_accepts (bs : List Nat) (hl : bs.length = 24) :
+    ∃ h, parseFrameHeader (Buf.ofList bs) = .ok h := ⟨_, frame_ok bs hl⟩
+
+/-! ### journal header -/
+
+theorem journal_ok (bs : List Nat) (hl : bs.length = 28) :
+    parseJournalHeader (Buf.ofList bs) =
+      .ok ⟨bs.take 8,
+        (if (bs.drop 8).take 4 = [255, 255, 255, 255] then (-1 : Int) else (Spec.be bs 8 4 : Int)),
+        Spec.be bs 12 4, Spec.be bs 16 4, Spec.be bs 20 4, Spec.be bs 24 4⟩ := by
+  unfold parseJournalHeader
+  rw [u32_ofList bs 8 (by omega), u32_ofList bs 12 (by omega), u32_ofList bs 16 (by omega),
+    u32_ofList bs 20 (by omega), u32_ofList bs 24 (by omega),
+    slice_toList_ofList bs 8 12 (by omega) (by omega),
+    slice_toList_ofList bs 0 8 (by omega) (by omega)]
+  simp [size_ofList, hl, Generated.ROLLBACK_JOURNAL_HEADER_ALL_CONTENT]
+  rfl
+
+theorem journal_len (bs : List Nat) (h : JournalHeader)
+    (hp : parseJournalHeader (Buf.ofList bs) = .ok h) : bs.length = 28 := by
+  by_cases hl : bs.length = 28
+  · exact hl
+  · unfold parseJournalHeader at hp
+    simp [size_ofList, hl] at hp
+
+theorem journal_fields_at_offsets (bs : List Nat) (h : JournalHeader)
+    (hp : parseJournalHeader (Buf.ofList bs) = .ok h) :
+    bs.length = 28 ∧ h.headerString = bs.take 8 ∧
+    h.pageCount = (if (bs.drop 8).take 4 = [255, 255, 255, 255] then (-1 : Int) else (Spec.be bs 8 4 : Int)) ∧
+    h.nonce = Spec.be bs 12 4 ∧ h.initialSize = Spec.be bs 16 4 ∧ h.sectorSize = Spec.be bs 20 4 ∧
+    h.pageSize = Spec.be bs 24 4 := by
+  have hl := journal_len bs h hp
+  rw [journal_ok bs hl] at hp
+  cases hp
+  exact ⟨hl, rfl, rfl, rfl, rfl, rfl, rfl⟩
+
+theorem journal_accepts (bs : List Nat) (hl : bs.length = 28) :
+    ∃ h, parseJournalHeader (Buf.ofList bs) = .ok h := ⟨_, journal_ok bs hl⟩
+
+/-! ### WAL header -/
+
+theorem wal_len (bs : List Nat) (h : WalHeader)
+    (hp : parseWalHeader (Buf.ofList bs) = .ok h) : bs.length = 32 := by
+  by_cases hl : bs.length = 32
+  · exact hl
+  · unfold parseWalHeader at hp
+    simp [size_ofList, hl] at hp
+
+theorem wal_eq (bs : List Nat) (hl : bs.length = 32) :
+    parseWalHeader (Buf.ofList bs) =
+      if Spec.be bs 0 4 ≠ 931071619 ∧ Spec.be bs 0 4 ≠ 931071618 then .error .parseError
+      else if Spec.be bs 4 4 ≠ 3007000 then .error .parseError
+      else .ok ⟨Spec.be bs 0 4, Spec.be bs 4 4, Spec.be bs 8 4, Spec.be bs 12 4, Spec.be bs 16 4,
+        Spec.be bs 20 4, Spec.be bs 24 4, Spec.be bs 28 4⟩ := by
+  unfold parseWalHeader
+  rw [u32_ofList bs 0 (by omega), u32_ofList bs 4 (by omega), u32_ofList bs 8 (by omega),
+    u32_ofList bs 12 (by omega), u32_ofList bs 16 (by omega), u32_ofList bs 20 (by omega),
+    u32_ofList bs 24 (by omega), u32_ofList bs 28 (by omega)]
+  by_cases h1 : ¬Spec.be bs 0 4 = 931071619 ∧ ¬Spec.be bs 0 4 = 931071618
+  · simp [size_ofList, hl, h1, ok_bind]
+  · by_cases h2 : Spec.be bs 4 4 = 3007000
+    · simp [size_ofList, hl, h1, h2, ok_bind, map_ok]
+    · simp [size_ofList, hl, h1, h2, ok_bind]
+
+theorem wal_fields_at_offsets (bs : List Nat) (h : WalHeader)
+    (hp : parseWalHeader (Buf.ofList bs) = .ok h) :
+    h.magic = Spec.be bs 0 4 ∧ h.formatVersion = Spec.be bs 4 4 ∧ h.pageSize = Spec.be bs 8 4 ∧
+    h.checkpointSeq = Spec.be bs 12 4 ∧ h.salt1 = Spec.be bs 16 4 ∧ h.salt2 = Spec.be bs 20 4 ∧
+    h.checksum1 = Spec.be bs 24 4 ∧ h.checksum2 = Spec.be bs 28 4 := by
+  have hl := wal_len bs h hp
+  rw [wal_eq bs hl] at hp
+  split at hp
+  · cases hp
+  · split at hp
+    · cases hp
+    · cases hp
+      exact ⟨rfl, rfl, rfl, rfl, rfl, rfl, rfl, rfl⟩
+
+theorem wal_accepts_iff_valid (bs : List Nat) :
+    (∃ h, parseWalHeader (Buf.ofList bs) = .ok h) ↔ Spec.validWalHeader bs = true := by
+  simp only [Spec.validWalHeader, Bool.and_eq_true, decide_eq_true_eq, Bool.or_eq_true,
+    Bool.decide_and, Bool.decide_or]
+  constructor
+  · rintro ⟨h, hp⟩
+    have hl := wal_len bs h hp
+    rw [wal_eq bs hl] at hp
+    split at hp
+    · cases hp
+    · split at hp
+      · cases hp
+      · refine ⟨hl, ?_, ?_⟩ <;> omega
+  · rintro ⟨hl, hm, hv⟩
+    rw [wal_eq bs hl]
+    rw [if_neg (by omega), if_neg (by omega)]
+    exact ⟨_, rfl⟩
+
+/-! ### database header -/
+
+def psCheck (ps : Nat) : Py Nat :=
+  if ps = Generated.MAXIMUM_PAGE_SIZE_INDICATOR then pure Generated.MAXIMUM_PAGE_SIZE
+      else if ps < Generated.MINIMUM_PAGE_SIZE_LIMIT then (.error .parseError : Py Nat)
+      else if ps > Generated.MAXIMUM_PAGE_SIZE_LIMIT then .error .parseError
+      else if ¬ isPowerOfTwo ps then .error .parseError
+      else pure ps
+
+theorem u32_eq (b : Buf) (off : Nat) (h : off + 4 ≤ b.size) : b.u32 off = .ok (b.beN off 4) := by
+  simp only [Buf.u32, h, if_true]
+theorem u16_eq (b : Buf) (off : Nat) (h : off + 2 ≤ b.size) : b.u16 off = .ok (b.beN off 2) := by
+  simp only [Buf.u16, h, if_true]
+theorem ordAt_eq (b : Buf) (i : Nat) (h : i < b.size) : ordAt b i = .ok (b.rd i) := by
+  simp only [ordAt, h, if_true]
+
+
+def dbMk (b : Buf) (ps : Nat) : DbHeader :=
+  { pageSize := ps, writeVersion := b.rd 18, readVersion := b.rd 19,
+    reservedBytes := b.rd 20, maxFraction := b.rd 21, minFraction := b.rd 22,
+    leafFraction := b.rd 23, changeCounter := b.beN 24 4, sizeInPages := b.beN 28 4,
+    firstFreelistTrunk := b.beN 32 4, freelistPages := b.beN 36 4,
+    schemaCookie := b.beN 40 4, schemaFormat := b.beN 44 4,
+    defaultCacheSize := b.beN 48 4, largestRoot := b.beN 52 4, textEncoding := b.beN 56 4,
+    userVersion := b.beN 60 4, incrementalVacuum := b.beN 64 4,
+    applicationId := b.beN 68 4, versionValidFor := b.beN 92 4,
+    sqliteVersion := b.beN 96 4, raw := b.toList }
+
+/-- the parser with all reads resolved (valid when `b.size = 100`) -/
+def dbChain (b : Buf) : Py DbHeader :=
+  if (b.slice 0 16).toList ≠ Generated.MAGIC_HEADER_STRING then .error .parseError
+  else psCheck (b.beN 16 2) >>= fun ps =>
+    if b.rd 18 ≠ 1 ∧ b.rd 18 ≠ 2 then .error .parseError
+    else if b.rd 19 ≠ 1 ∧ b.rd 19 ≠ 2 then .error .parseError
+    else if b.rd 20 ≠ 0 then .error .notImplemented
+    else if b.rd 21 ≠ 64 then .error .parseError
+    else if b.rd 22 ≠ 32 then .error .parseError
+    else if b.rd 23 ≠ 32 then .error .parseError
+    else if ¬(b.beN 44 4 = 0 ∧ b.beN 56 4 = 0) ∧
+        ¬Generated.VALID_SCHEMA_FORMATS.contains (b.beN 44 4) = true then .error .parseError
+    else if ¬(b.beN 44 4 = 0 ∧ b.beN 56 4 = 0) ∧
+        ¬Generated.DATABASE_TEXT_ENCODINGS.contains (b.beN 56 4) = true then .error .parseError
+    else if b.beN 52 4 = 0 ∧ b.beN 64 4 ≠ 0 then .error .parseError
+    else if ((b.slice 72 92).toList.any fun x => decide (x ≠ 0)) = true then .error .parseError
+    else .ok (dbMk b ps)
+
+theorem db_eq_chain (b : Buf) (hs : b.size = 100) : parseDbHeader b = dbChain b := by
+  unfold parseDbHeader
+  rw [u16_eq b 16 (by omega), ordAt_eq b 18 (by omega), ordAt_eq b 19 (by omega),
+    ordAt_eq b 20 (by omega), ordAt_eq b 21 (by omega), ordAt_eq b 22 (by omega),
+    ordAt_eq b 23 (by omega), u32_eq b 24 (by omega), u32_eq b 28 (by omega),
+    u32_eq b 32 (by omega), u32_eq b 36 (by omega), u32_eq b 40 (by omega),
+    u32_eq b 44 (by omega), u32_eq b 48 (by omega), u32_eq b 52 (by omega),
+    u32_eq b 56 (by omega), u32_eq b 60 (by omega), u32_eq b 64 (by omega),
+    u32_eq b 68 (by omega), u32_eq b 92 (by omega), u32_eq b 96 (by omega)]
+  simp only [ok_bind]
+  rw [if_neg (by simp [hs])]
+  rfl
+
+theorem db_size_ne (b : Buf) (hs : b.size ≠ 100) : parseDbHeader b = .error .valueError := by
+  unfold parseDbHeader
+  exact if_pos hs
+
+theorem db_size (b : Buf) (h : DbHeader) (hp : parseDbHeader b = .ok h) : b.size = 100 := by
+  by_cases hs : b.size = 100
+  · exact hs
+  · rw [db_size_ne b hs] at hp
+    cases hp
+
+
+theorem ite_err_ok_iff {α : Type} (c : Prop) [Decidable c] (e : PyErr) (k : Py α) (x : α) :
+    (if c then Except.error e else k) = Except.ok x ↔ ¬c ∧ k = Except.ok x := by
+  by_cases hc : c
+  · simp [hc]
+  · simp [hc]
+
+theorem ite_err_err_iff {α : Type} (c : Prop) [Decidable c] (e e' : PyErr) (k : Py α) :
+    (if c then Except.error e else k) = Except.error e' ↔ (c ∧ e = e') ∨ (¬c ∧ k = Except.error e') := by
+  by_cases hc : c
+  · simp [hc]
+  · simp [hc]
+
+def DbCond (b : Buf) : Prop :=
+  (b.rd 18 = 1 ∨ b.rd 18 = 2) ∧ (b.rd 19 = 1 ∨ b.rd 19 = 2) ∧ b.rd 20 = 0 ∧ b.rd 21 = 64 ∧
+  b.rd 22 = 32 ∧ b.rd 23 = 32 ∧
+  ((b.beN 44 4 = 0 ∧ b.beN 56 4 = 0) ∨
+    (Generated.VALID_SCHEMA_FORMATS.contains (b.beN 44 4) = true ∧
+     Generated.DATABASE_TEXT_ENCODINGS.contains (b.beN 56 4) = true)) ∧
+  (b.beN 64 4 ≠ 0 → b.beN 52 4 ≠ 0) ∧
+  ((b.slice 72 92).toList.any fun x => decide (x ≠ 0)) = false
+
+theorem dbChain_ok_iff (b : Buf) (h : DbHeader) : dbChain b = .ok h ↔
+    (b.slice 0 16).toList = Generated.MAGIC_HEADER_STRING ∧
+    ∃ ps, psCheck (b.beN 16 2) = .ok ps ∧ DbCond b ∧ h = dbMk b ps := by
+  unfold dbChain DbCond
+  by_cases hm : (b.slice 0 16).toList = Generated.MAGIC_HEADER_STRING
+  case neg =>
+    constructor
+    · intro hp
+      rw [if_pos hm] at hp
+      cases hp
+    · rintro ⟨h, -⟩
+      exact absurd h hm
+  rw [if_neg (not_not_intro hm)]
+  cases hps : psCheck (b.beN 16 2) with
+  | error e =>
+    constructor
+    · intro hp
+      rw [error_bind] at hp
+      cases hp
+    · rintro ⟨-, ps, hpe, -⟩
+      cases hpe
+  | ok ps =>
+    simp only [ok_bind]
+    simp only [ite_err_ok_iff]
+    constructor
+    · rintro ⟨h1, h2, h3, h4, h5, h6, h7, h8, h9, h10, hp⟩
+      cases hp
+      refine ⟨hm, ps, rfl, ⟨by omega, by omega, by omega, by omega, by omega, by omega, ?_,
+        by omega, by simpa using h10⟩, rfl⟩
+      by_cases hz : (b.beN 44 4 = 0 ∧ b.beN 56 4 = 0)
+      · exact Or.inl hz
+      · refine Or.inr ⟨?_, ?_⟩
+        · exact Decidable.not_not.mp (fun hc => h7 ⟨hz, hc⟩)
+        · exact Decidable.not_not.mp (fun hc => h8 ⟨hz, hc⟩)
+    · rintro ⟨-, ps', hpe, ⟨c1, c2, c3, c4, c5, c6, c7, c8, c9⟩, rfl⟩
+      cases hpe
+      refine ⟨by omega, by omega, by omega, by omega, by omega, by omega, ?_, ?_, by omega, ?_, rfl⟩
+      · rintro ⟨hz, hc⟩
+        rcases c7 with c7 | c7
+        · exact hz c7
+        · exact hc c7.1
+      · rintro ⟨hz, hc⟩
+        rcases c7 with c7 | c7
+        · exact hz c7
+        · exact hc c7.2
+      · rw [c9]; exact Bool.false_ne_true
+
+theorem and_pred_ne_zero (k v : Nat) (h1 : 2 ^ k < v) (h2 : v < 2 ^ (k + 1)) :
+    v &&& (v - 1) ≠ 0 := by
+  intro h
+  have h0 : (v &&& (v - 1)).testBit k = false := by rw [h]; exact Nat.zero_testBit k
+  rw [Nat.testBit_and, Nat.testBit_eq_decide_div_mod_eq, Nat.testBit_eq_decide_div_mod_eq] at h0
+  rw [Nat.pow_succ] at h2
+  have hp : 0 < 2 ^ k := Nat.two_pow_pos k
+  generalize 2 ^ k = p at *
+  have a : v / p = 1 := Nat.div_eq_of_lt_le (by omega) (by omega)
+  have c : (v - 1) / p = 1 := Nat.div_eq_of_lt_le (by omega) (by omega)
+  rw [a, c] at h0
+  simp at h0
+
+theorem isPowerOfTwo_iff (v : Nat) (hlo : 512 ≤ v) (hhi : v ≤ 32768) :
+    isPowerOfTwo v = true ↔
+      (v = 512 ∨ v = 1024 ∨ v = 2048 ∨ v = 4096 ∨ v = 8192 ∨ v = 16384 ∨ v = 32768) := by
+  constructor
+  · intro h
+    simp only [isPowerOfTwo, Bool.decide_and, Bool.and_eq_true, decide_eq_true_eq] at h
+    have hz := h.2
+    by_cases c9 : 2 ^ 9 < v ∧ v < 2 ^ 10
+    · exact absurd hz (and_pred_ne_zero 9 v c9.1 c9.2)
+    by_cases c10 : 2 ^ 10 < v ∧ v < 2 ^ 11
+    · exact absurd hz (and_pred_ne_zero 10 v c10.1 c10.2)
+    by_cases c11 : 2 ^ 11 < v ∧ v < 2 ^ 12
+    · exact absurd hz (and_pred_ne_zero 11 v c11.1 c11.2)
+    by_cases c12 : 2 ^ 12 < v ∧ v < 2 ^ 13
+    · exact absurd hz (and_pred_ne_zero 12 v c12.1 c12.2)
+    by_cases c13 : 2 ^ 13 < v ∧ v < 2 ^ 14
+    · exact absurd hz (and_pred_ne_zero 13 v c13.1 c13.2)
+    by_cases c14 : 2 ^ 14 < v ∧ v < 2 ^ 15
+    · exact absurd hz (and_pred_ne_zero 14 v c14.1 c14.2)
+    omega
+  · rintro (h | h | h | h | h | h | h) <;> subst h <;> decide
+
+
+theorem psCheck_ok_iff (v ps : Nat) : psCheck v = .ok ps ↔
+    (v = 1 ∧ ps = 65536) ∨ (v ≠ 1 ∧ 512 ≤ v ∧ v ≤ 32768 ∧ isPowerOfTwo v = true ∧ ps = v) := by
+  unfold psCheck
+  by_cases h1 : v = 1
+  · subst h1
+    simp only [Generated.MAXIMUM_PAGE_SIZE_INDICATOR, Generated.MAXIMUM_PAGE_SIZE, if_true, pure_eq]
+    constructor
+    · intro h; cases h; simp
+    · intro h
+      have : ps = 65536 := by simpa using h
+      rw [this]
+  by_cases h2 : v < 512
+  · simp [h1, h2]; omega
+  by_cases h3 : v > 32768
+  · simp [h1, h2, h3]; omega
+  by_cases h4 : isPowerOfTwo v = true
+  · simp [h1, h2, h3, h4, pure_eq, eq_comm]; omega
+  · simp [h1, h2, h3, h4]
+
+theorem psCheck_error (v : Nat) (e : PyErr) (h : psCheck v = .error e) : e = .parseError := by
+  unfold psCheck at h
+  by_cases h1 : v = 1
+  · simp [h1, pure_eq] at h
+  by_cases h2 : v < 512
+  · simp [h1, h2] at h; exact h.symm
+  by_cases h3 : v > 32768
+  · simp [h1, h2, h3] at h; exact h.symm
+  by_cases h4 : isPowerOfTwo v = true
+  · simp [h1, h2, h3, h4, pure_eq] at h
+  · simp [h1, h2, h3, h4] at h; exact h.symm
+
+theorem dbChain_error (b : Buf) (e : PyErr) (hp : dbChain b = .error e) :
+    e = .valueError ∨ e = .parseError ∨ e = .notImplemented := by
+  unfold dbChain at hp
+  rw [ite_err_err_iff] at hp
+  rcases hp with ⟨-, rfl⟩ | ⟨-, hp⟩
+  · exact Or.inr (Or.inl rfl)
+  cases hps : psCheck (b.beN 16 2) with
+  | error e' =>
+    rw [hps, error_bind] at hp
+    cases hp
+    simp [psCheck_error _ _ hps]
+  | ok ps =>
+    rw [hps, ok_bind] at hp
+    repeat
+      rw [ite_err_err_iff] at hp
+      rcases hp with ⟨-, rfl⟩ | ⟨-, hp⟩
+      · first | exact Or.inr (Or.inl rfl) | exact Or.inr (Or.inr rfl)
+    cases hp
+
+theorem db_error_kinds (b : Buf) (e : PyErr) (hp : parseDbHeader b = .error e) :
+    e = .valueError ∨ e = .parseError ∨ e = .notImplemented := by
+  by_cases hs : b.size = 100
+  · rw [db_eq_chain b hs] at hp
+    exact dbChain_error b e hp
+  · rw [db_size_ne b hs] at hp
+    cases hp
+    exact Or.inl rfl
+
+
+theorem contains_formats (n : Nat) :
+    Generated.VALID_SCHEMA_FORMATS.contains n = true ↔ (1 ≤ n ∧ n ≤ 4) := by
+  simp [Generated.VALID_SCHEMA_FORMATS]; omega
+
+theorem contains_encodings (n : Nat) :
+    Generated.DATABASE_TEXT_ENCODINGS.contains n = true ↔ (1 ≤ n ∧ n ≤ 3) := by
+  simp [Generated.DATABASE_TEXT_ENCODINGS]; omega
+
+theorem any_ne_zero_false (l : List Nat) :
+    (l.any fun x => decide (x ≠ 0)) = false ↔ (l.all fun x => decide (x = 0)) = true := by
+  induction l with
+  | nil => simp
+  | cons a t ih => simp
+
+/-- the non-page-size conditions, on lists -/
+def SpecCond (bs : List Nat) : Prop :=
+  (bs.getD 18 0 = 1 ∨ bs.getD 18 0 = 2) ∧ (bs.getD 19 0 = 1 ∨ bs.getD 19 0 = 2) ∧
+  bs.getD 20 0 = 0 ∧ bs.getD 21 0 = 64 ∧ bs.getD 22 0 = 32 ∧ bs.getD 23 0 = 32 ∧
+  ((Spec.be bs 44 4 = 0 ∧ Spec.be bs 56 4 = 0) ∨
+    ((1 ≤ Spec.be bs 44 4 ∧ Spec.be bs 44 4 ≤ 4) ∧ (1 ≤ Spec.be bs 56 4 ∧ Spec.be bs 56 4 ≤ 3))) ∧
+  (Spec.be bs 64 4 ≠ 0 → Spec.be bs 52 4 ≠ 0) ∧
+  (((bs.drop 72).take 20).all fun x => decide (x = 0)) = true
+
+theorem DbCond_ofList (bs : List Nat) (hl : bs.length = 100) :
+    DbCond (Buf.ofList bs) ↔ SpecCond bs := by
+  unfold DbCond SpecCond
+  rw [slice_toList_ofList bs 72 92 (by omega) (by omega), any_ne_zero_false]
+  simp only [rd_ofList, beN_ofList, contains_formats, contains_encodings]
+
+theorem db_ok_ofList_iff (bs : List Nat) (h : DbHeader) :
+    parseDbHeader (Buf.ofList bs) = .ok h ↔
+      bs.length = 100 ∧ bs.take 16 = Spec.magicString ∧
+      ∃ ps, psCheck (Spec.be bs 16 2) = .ok ps ∧ SpecCond bs ∧ h = dbMk (Buf.ofList bs) ps := by
+  by_cases hl : bs.length = 100
+  · rw [db_eq_chain _ (by rw [size_ofList]; exact hl), dbChain_ok_iff, DbCond_ofList bs hl,
+      slice_toList_ofList bs 0 16 (by omega) (by omega), beN_ofList]
+    simp only [hl, true_and, List.drop_zero, Nat.sub_zero]
+    rfl
+  · constructor
+    · intro hp
+      exact absurd (db_size _ _ hp) hl
+    · rintro ⟨h, -⟩
+      exact absurd h hl
+
+theorem psCheck_pageSizeOfField (v ps : Nat) (h : psCheck v = .ok ps) :
+    ps = Spec.pageSizeOfField v ∧ Spec.validPageSizeField v = true := by
+  rw [psCheck_ok_iff] at h
+  rcases h with ⟨rfl, rfl⟩ | ⟨h1, h2, h3, h4, he⟩
+  · exact ⟨rfl, rfl⟩
+  · rw [isPowerOfTwo_iff v h2 h3] at h4
+    rw [he]
+    refine ⟨by simp [Spec.pageSizeOfField, h1], ?_⟩
+    simp only [Spec.validPageSizeField, Bool.decide_or, Bool.or_eq_true, decide_eq_true_eq]
+    exact Or.inr h4
+
+theorem validPageSizeField_psCheck (v : Nat) (h : Spec.validPageSizeField v = true) :
+    ∃ ps, psCheck v = .ok ps := by
+  simp only [Spec.validPageSizeField, Bool.decide_or, Bool.or_eq_true, decide_eq_true_eq] at h
+  by_cases h1 : v = 1
+  · exact ⟨65536, (psCheck_ok_iff v _).mpr (Or.inl ⟨h1, rfl⟩)⟩
+  · have h' : v = 512 ∨ v = 1024 ∨ v = 2048 ∨ v = 4096 ∨ v = 8192 ∨ v = 16384 ∨ v = 32768 := by
+      omega
+    exact ⟨v, (psCheck_ok_iff v _).mpr (Or.inr ⟨h1, by omega, by omega,
+      (isPowerOfTwo_iff v (by omega) (by omega)).mpr h', rfl⟩)⟩
+
+theorem db_fields_at_offsets (bs : List Nat) (h : DbHeader)
+    (hp : parseDbHeader (Buf.ofList bs) = .ok h) :
+    h.pageSize = Spec.pageSizeOfField (Spec.be bs 16 2) ∧
+    h.writeVersion = bs.getD 18 0 ∧ h.readVersion = bs.getD 19 0 ∧ h.reservedBytes = bs.getD 20 0 ∧
+    h.maxFraction = bs.getD 21 0 ∧ h.minFraction = bs.getD 22 0 ∧ h.leafFraction = bs.getD 23 0 ∧
+    h.changeCounter = Spec.be bs 24 4 ∧ h.sizeInPages = Spec.be bs 28 4 ∧
+    h.firstFreelistTrunk = Spec.be bs 32 4 ∧ h.freelistPages = Spec.be bs 36 4 ∧
+    h.schemaCookie = Spec.be bs 40 4 ∧ h.schemaFormat = Spec.be bs 44 4 ∧
+    h.defaultCacheSize = Spec.be bs 48 4 ∧ h.largestRoot = Spec.be bs 52 4 ∧
+    h.textEncoding = Spec.be bs 56 4 ∧ h.userVersion = Spec.be bs 60 4 ∧
+    h.incrementalVacuum = Spec.be bs 64 4 ∧ h.applicationId = Spec.be bs 68 4 ∧
+    h.versionValidFor = Spec.be bs 92 4 ∧ h.sqliteVersion = Spec.be bs 96 4 := by
+  rw [db_ok_ofList_iff] at hp
+  obtain ⟨-, -, ps, hps, -, rfl⟩ := hp
+  simp only [dbMk, beN_ofList, rd_ofList, (psCheck_pageSizeOfField _ _ hps).1, and_self]
+
+theorem db_rejects_invalid (bs : List Nat) (h : DbHeader)
+    (hp : parseDbHeader (Buf.ofList bs) = .ok h) : Spec.validDbHeader bs = true := by
+  rw [db_ok_ofList_iff] at hp
+  obtain ⟨hl, hm, ps, hps, ⟨-, -, -, c4, c5, c6, c7, -, c9⟩, -⟩ := hp
+  simp only [Spec.validDbHeader, Bool.decide_and, Bool.decide_or, Bool.and_eq_true,
+    Bool.or_eq_true, decide_eq_true_eq]
+  exact ⟨hl, hm, (psCheck_pageSizeOfField _ _ hps).2, c4, c5, c6, c7, c9⟩
+
+theorem db_accepts_sqlite (bs : List Nat) (hs : Spec.sqliteWritesDbHeader bs = true) :
+    ∃ h, parseDbHeader (Buf.ofList bs) = .ok h := by
+  simp only [Spec.sqliteWritesDbHeader, Spec.validDbHeader, Bool.decide_and, Bool.decide_or,
+    Bool.and_eq_true, Bool.or_eq_true, decide_eq_true_eq] at hs
+  obtain ⟨⟨hl, hm, hv, c4, c5, c6, c7, c9⟩, -, c1, c2, c3, c8⟩ := hs
+  obtain ⟨ps, hps⟩ := validPageSizeField_psCheck _ hv
+  exact ⟨_, (db_ok_ofList_iff bs _).mpr ⟨hl, hm, ps, hps, ⟨c1, c2, c3, c4, c5, c6, c7, c8, c9⟩, rfl⟩⟩
+
 end SqliteDissect.Proofs.Header
